@@ -9,6 +9,7 @@ CONSTANTS
   Bug_FlushDoesNotWake = FALSE
   Bug_RotateDoesNotSchedule = FALSE
   Bug_StopBelowTrigger = FALSE
+  Bug_EmptyMemtableFull = FALSE
 INVARIANTS SchedSane NoLostWaiter WorkIsScheduled Level0Bounded
 PROPERTIES EveryWriteReturns WorkerRests
 CHECK_DEADLOCK TRUE
